@@ -352,6 +352,19 @@ def _edge_blocks(repo, fi):
                 raise Und("selection of edge rows")
             if base == "CUMSUM_CELL" and ast.unparse(e.slice) == "-1":
                 return A("ncell")
+            if isinstance(base, str) and base.startswith("CUMSUM_CELL@") and ast.unparse(e.slice) == "-1":
+                return A("ncell@" + base.split("@")[1])  # the count of ONE PARTICULAR cell, not of the cell of this block
+            if isinstance(base, _Seq) and isinstance(e.slice, (ast.Constant, ast.UnaryOp)) and \
+                    ast.unparse(e.slice).lstrip("-").isdigit():
+                k = ast.unparse(e.slice)
+                el = base.elem
+                if isinstance(el, ObjV):
+                    return ObjV(el.cls, {a_: (v_ + "@" + k if isinstance(v_, str) else v_) for a_, v_ in el.attrs.items()})
+                if isinstance(el, PW):
+                    r_ = el.single()
+                    if r_ is not None:
+                        return A(f"({r_})@{k}")
+                raise Und(f"element {k} of a sequence")
             if base == "CUMSUM_NET" and ast.unparse(e.slice) == "-1":
                 return A("Ntot")
             if isinstance(base, tuple):
